@@ -26,6 +26,9 @@ def run(ctx):
     for i in range(2):
         cases.append({"kind": "reorder", "seed": i, "nlookupd": 1 + i % 2, "fails": []})
     cases.append({"kind": "precreate", "seed": 1, "nlookupd": 1, "fails": []})
+    cases.append({"kind": "precreate2", "seed": 1, "nlookupd": 2, "fails": []})
+    cases.append({"kind": "badident", "seed": 1, "nlookupd": 1, "fails": []})
+    cases.append({"kind": "badident", "seed": 2, "nlookupd": 2, "fails": []})
     for i in range(10 if quick else 120):
         cases.append({"kind": "random", "seed": ctx.seed * 1000 + i, "nlookupd": 1 + i % 2, "fails": []})
     h = ctx.harness("core")
@@ -89,6 +92,8 @@ def run(ctx):
                         print("OTHER-PROPERTY: " + f, flush=True)
                         continue
                     key = "notify-reorder" if f.startswith("[reorder]") else "ls:" + f[:40]
+                    if f.startswith("[precreate]"):
+                        key = "precreate-partial"
                     ctx.violation("%s (seed %d, %d lookupd): %s" % (o["kind"], o["seed"], o["nlookupd"], f),
                                   ctx.save_replay("lookupsync-" + o["kind"], o), key=key)
         for idx, tb in j["crashes"].items():
